@@ -321,6 +321,7 @@ class Interp:
         self.drop_policy = lambda inst: False  # which drop glue instances are interpreted
         self.unknown_calls = []  # names of callees that returned TOP because nothing was known
         self.assert_hook = None  # fn(state, frame, term, outcome) for recording assert discharges
+        self.max_call_depth = 120
         self.skip_pointer_checks = False  # debug-build UB checks on raw pointer dereferences are not part of the semantics
         self.on_unknown_call = None
         self.index_read_hook = None  # fn(interp, st, heap model, index value) -> value
@@ -1240,6 +1241,8 @@ class Interp:
         inst = self.p.inst[iid]
         if not inst.get("has_mir"):
             raise Undecided("no MIR for %s" % inst["name"])
+        if len(st.frames) >= self.max_call_depth:
+            raise Undecided("call depth %d exceeded in %s: unbounded recursion?" % (self.max_call_depth, inst["name"][:120]))
         st.ctr["frame"] += 1
         f = Frame(iid, st.ctr["frame"])
         f.dest = dest
